@@ -4,7 +4,7 @@
    the real tool by harness/shell_corr.py, and checked end to end by the oracle in props/c19.py. *)
 From Coq Require Import List NArith Bool.
 From NV Require Import Lib.Res Gen.Copy Copy.Model Copy.Proofs.
-From NV Require Gen.Fat FatVol.Model FatVol.ProofsInv FatVol.Proofs.
+From NV Require Gen.Fat FatVol.Model FatVol.ProofsInv FatVol.Proofs Shell.Paths.
 Import ListNotations.
 Open Scope N_scope.
 
@@ -137,3 +137,31 @@ Theorem C19_any_command_keeps_the_volume_consistent :
     FatVol.ProofsInv.VolInv upper V (fst (FatVol.Model.run upper V s ops)).
 Proof. split; [reflexivity|exact FatVol.Proofs.FV_history_inv]. Qed.
 Print Assumptions C19_any_command_keeps_the_volume_consistent.
+
+(* which command-line words name something inside an image (sh.get_paths, through _image_re; the pattern text and its
+   use are facts regenerated from sh.py).  A recognised word IS image ":" [partition] path -- partition 1..999 without
+   a leading zero, path starting with "/", no newline in either part (one trailing newline apart) ... *)
+Theorem C19_image_word_facts : sh_image_re_standard = true /\ sh_get_paths_uses_image_re = true.
+Proof. split; reflexivity. Qed.
+Print Assumptions C19_image_word_facts.
+
+Theorem C19_image_word_sound : forall s img pt p,
+  Shell.Paths.parse_image_word s = Some (img, pt, p) ->
+  (s = Shell.Paths.render img pt p \/ s = Shell.Paths.render img pt p ++ [10]) /\
+  Shell.Paths.no_nl img = true /\ Shell.Paths.no_nl p = true /\ (exists q, p = 47 :: q) /\
+  match pt with None => True | Some n => 1 <= n /\ n <= 999 end.
+Proof. exact Shell.Paths.parse_sound. Qed.
+Print Assumptions C19_image_word_sound.
+
+(* ... every image word whose image name holds no colon is read back as written ... *)
+Theorem C19_image_word_complete : forall img pt p q,
+  ~ In 58 img -> Shell.Paths.no_nl img = true -> p = 47 :: q -> Shell.Paths.no_nl p = true ->
+  match pt with None => True | Some n => 1 <= n /\ n <= 999 end ->
+  Shell.Paths.parse_image_word (Shell.Paths.render img pt p) = Some (img, pt, p).
+Proof. exact Shell.Paths.parse_render. Qed.
+Print Assumptions C19_image_word_complete.
+
+(* ... and a word without a colon is a host path *)
+Theorem C19_host_word : forall s, ~ In 58 s -> Shell.Paths.parse_image_word s = None.
+Proof. exact Shell.Paths.host_words. Qed.
+Print Assumptions C19_host_word.
